@@ -99,6 +99,11 @@ func workerInit() {
 		for _, h := range []string{"http://smf-a.example", "http://smf-b.example", "http://smf-c.example"} {
 			gock.New(h).Post("/notify").Persist().Reply(204)
 		}
+		// consumers that answer the notification in other ways (the CHF must still have sent exactly one)
+		gock.New("http://smf-400.example").Post("/notify").Persist().Reply(400).JSON(map[string]any{"status": 400, "title": "Bad Request"})
+		gock.New("http://smf-404.example").Post("/notify").Persist().Reply(404).JSON(map[string]any{"status": 404})
+		gock.New("http://smf-500.example").Post("/notify").Persist().Reply(500)
+		gock.New("http://smf-200.example").Post("/notify").Persist().Reply(200)
 		gock.Observe(func(req *http.Request, m gock.Mock) {
 			var body []byte
 			if req.Body != nil {
